@@ -12,11 +12,14 @@ package main
 
 import (
 	"fmt"
+	"github.com/lindb/lindb/internal/vcrashfs"
+	"github.com/lindb/lindb/series/metric"
 	"os"
 	"path/filepath"
 	"runtime"
 	"sort"
 	"strings"
+	"time"
 
 	"github.com/lindb/common/pkg/timeutil"
 
@@ -326,13 +329,103 @@ func finish(rep *vevid.Report, sc scenario, x *vsched.Result) {
 			sig = append(sig, "flush-miss")
 		}
 	}
+	if crashOracle {
+		sig = append(sig, seriesOracle(viol, all)...)
+	}
 	sort.Strings(sig)
 	rep.Outcome(fmt.Sprintf("%s written=%d flushed-series=%d %s", sc.Name, len(wd.written), len(rec.out), strings.Join(sig, ",")))
 }
 
+// ---------------------------------------------------------------------------------------------------
+// C09 part memrace: name -> id stays injective across a crash, whatever the memory level's event loops interleaved
+
+var crashOracle bool
+
+var c09Scenarios = []scenario{
+	{Name: "new-series-vs-index-flush", Pre: []op{w("m0", "a", "f")}, Threads: [][]op{{w("m0", "b", "f")}, {fi}}},
+	{Name: "two-new-series-vs-index-flush", Pre: []op{w("m0", "a", "f")}, Threads: [][]op{{w("m0", "b", "f"), w("m0", "c", "f")}, {fi}}},
+	{Name: "new-series-vs-both-flushes", Pre: []op{w("m0", "a", "f")}, Threads: [][]op{{w("m0", "b", "f")}, {fm, fi}}},
+	{Name: "new-metric-vs-both-flushes", Pre: []op{w("m0", "a", "f")}, Threads: [][]op{{w("m1", "a", "f")}, {fm, fi}}},
+}
+
+func seriesRow(m, host string) *metric.StorageRow {
+	rows, err := vbox.Rows([]vbox.Point{{Namespace: "ns", Metric: m, Tags: map[string]string{"host": host}, Field: "f", Type: "sum", Value: 1, Timestamp: baseTime}})
+	if err != nil {
+		vevid.Fatal("rows: %v", err)
+	}
+	return rows[0]
+}
+
+// seriesOracle: the directory as it is now (what the flush events made durable; everything in memory is lost) is
+// recovered by fresh index databases: for every metric found there, two new series and every series written before
+// get series ids - different tag sets never share one.
+func seriesOracle(viol func(clause, site, detail string), all []op) []string {
+	var sig []string
+	img := vcrashfs.Snap(wd.dir, func(rel string) bool { return strings.HasSuffix(rel, "LOCK") || strings.HasPrefix(rel, "buf") })
+	croot := filepath.Join(scratch, "crash")
+	_ = os.RemoveAll(croot)
+	defer os.RemoveAll(croot)
+	if err := img.Materialize(croot); err != nil {
+		vevid.Fatal("materialize: %v", err)
+	}
+	meta, err := index.NewMetricMetaDatabase("db", filepath.Join(croot, "meta"))
+	if err != nil {
+		viol("reopen-failed", "index.NewMetricMetaDatabase", err.Error())
+		return sig
+	}
+	defer meta.Close()
+	idx, err := index.NewMetricIndexDatabase(filepath.Join(croot, "index"), meta)
+	if err != nil {
+		viol("reopen-failed", "index.NewMetricIndexDatabase", err.Error())
+		return sig
+	}
+	defer idx.Close()
+	hostsOf := map[string][]string{}
+	for _, o := range all {
+		dup := false
+		for _, h := range hostsOf[o.Metric] {
+			dup = dup || h == o.Host
+		}
+		if !dup {
+			hostsOf[o.Metric] = append(hostsOf[o.Metric], o.Host)
+		}
+	}
+	for m, hosts := range hostsOf {
+		mid, err := meta.GetMetricID("ns", m)
+		if err != nil {
+			sig = append(sig, "metric-not-durable")
+			continue // the name did not make it to disk: nothing refers to it
+		}
+		got := map[uint32]string{}
+		for _, h := range append([]string{"new0", "new1"}, hosts...) {
+			id, err := idx.GenSeriesID(mid, seriesRow(m, h))
+			if err != nil {
+				viol("create-after-recovery-failed", "index.GenSeriesID", fmt.Sprintf("%s{host=%s}: %v", m, h, err))
+				continue
+			}
+			if other, dup := got[id]; dup {
+				viol("recovered-injective", "index.GenSeriesID", fmt.Sprintf("after a crash at the end of the schedule the series %s{host=%s} and %s{host=%s} both have series id %d", m, other, m, h, id))
+				sig = append(sig, "id-shared")
+			}
+			got[id] = h
+		}
+	}
+	return sig
+}
+
 func main() {
 	f := vevid.ParseFlags()
-	rep := vevid.New("C11")
+	// the same harness is part memrace of C09 (METARACE_PROP=C09): scenarios around new series and the index flush
+	// event, plus the crash oracle on series ids (seriesOracle)
+	prop := os.Getenv("METARACE_PROP")
+	if prop == "" {
+		prop = "C11"
+	}
+	if prop == "C09" {
+		scenarios = c09Scenarios
+		crashOracle = true
+	}
+	rep := vevid.New(prop)
 	scratch = f.Scratch
 	vsched.Strict = true
 	day := timeutil.Now()/86400000*86400000 - 86400000
@@ -366,6 +459,9 @@ func main() {
 		scs   []scenario
 	}
 	small := []scenario{scenarios[1], scenarios[2], scenarios[3]}
+	if crashOracle {
+		small = scenarios
+	}
 	passes := []pass{{1, small}}
 	if f.Thorough() {
 		passes = []pass{{1, scenarios}, {2, small}}
@@ -373,13 +469,25 @@ func main() {
 	rep.Bounds["preemption_bound"] = passes[len(passes)-1].bound
 	rep.Rule = fmt.Sprintf("%d scenarios (quick: 3): 1-2 writers (WriteRow + wait for the metadata/index event loops, as dataFamily.WriteRows) of new metrics / fields / series racing with the metadata flush event (PrepareFlush, background Flush, callback, gc of the memory metric stores) and the index flush event, on fresh real index + memory databases per execution; every schedule with <=1 preemption (thorough: then <=2 for the 3 small scenarios) at the lock / atomic / sync.Map / WaitGroup / channel operations of tsdb/memdb's metadata, index, metric-store and time-series-index files; after each schedule: metric id -> memory metric id -> metric store -> persisted fields, and FlushFamilyTo emits every completed (series, field). distinct = (scenario, bound, schedule)", len(scenarios))
 	first := true
+	todo := 0
+	for _, ps := range passes {
+		todo += len(ps.scs)
+	}
 	for _, ps := range passes {
 		for _, sc := range ps.scs {
 			sc := sc
+			// the time left is split evenly over the explorations still to run
+			dl := f.Deadline
+			if !dl.IsZero() && todo > 0 {
+				if left := time.Until(dl); left > 0 {
+					dl = time.Now().Add(left / time.Duration(todo))
+				}
+			}
+			todo--
 			if only := os.Getenv("C11_ONLY"); only != "" && only != sc.Name {
 				continue
 			}
-			e := &vsched.Explorer{Bound: ps.bound, Horizon: horizon, Body: body(sc), Shard: f.Shard, Shards: f.Shards, Deadline: f.Deadline}
+			e := &vsched.Explorer{Bound: ps.bound, Horizon: horizon, Body: body(sc), Shard: f.Shard, Shards: f.Shards, Deadline: dl}
 			e.Check = func(x *vsched.Result) {
 				finish(rep, sc, x)
 				if len(x.Points) > 0 {
